@@ -1,3 +1,4 @@
+import XdsVerif.Proofs.Sweep
 import XdsVerif.Driver.Util
 import XdsVerif.Model.Seq
 import XdsVerif.Generated.Facts
@@ -204,6 +205,7 @@ def check (pid : String) (j : Json) : Except String Verdict := do
     | "tick" =>
       -- evictions in the order the cleaner performed them, read off the requests: each lists one name fewer
       let mut cur : RType → List String := fun rt => (prev.interest rt).getD []
+      let before := r.s
       for q in o.reqs do
         let before := cur q.rt
         match before.filter (fun n => !q.names.contains n) with
@@ -215,6 +217,17 @@ def check (pid : String) (j : Json) : Except String Verdict := do
           let old := cur
           cur := fun rt => if rt = rtq then nm else old rt
         | l => r := r.fail s!"{what}: request {showReq q} does not remove exactly one name (removed {l})"
+      -- the tick as a whole (`Sweep.sweep`, the definition the C19 theorems are about), over the universe in a fixed order,
+      -- must leave the cache and the interest sets the replayed evictions left (whatever order the real sweep used)
+      if !before.closed && r.mismatch.isNone then
+        let es : List (RType × String) := [RType.lds, .rds, .cds, .eds].flatMap (fun rt => (uni rt).map (fun n => (rt, n)))
+        let sw := Sweep.sweep cfg now before es
+        for (rt, n) in es do
+          if sw.cache rt n != r.s.cache rt n then
+            r := r.fail s!"{what}: Sweep.sweep and the replayed evictions disagree on the cache entry {rtStr rt}/{n}"
+        for rt in [RType.lds, .rds, .cds, .eds] do
+          if sortStr ((sw.watched rt).getD []) != sortStr ((r.s.watched rt).getD []) then
+            r := r.fail s!"{what}: Sweep.sweep and the replayed evictions disagree on the interest set of {rtStr rt}"
       r := r.drain cfg
       r := r.compare o oj uni what
       -- nothing else was evictable: every remaining entry of the universe is not enabled for eviction
